@@ -47,6 +47,30 @@ fn any_case(c: u8) -> u8 {
 }
 
 // --------------------------------------------------------------------------
+// Stub S8: Writer::write
+// --------------------------------------------------------------------------
+// `Writer::write(position, data)` is `octets[position..position + len]
+// .copy_from_slice(data)`: one memcpy, after which CBMC treats the whole
+// message buffer as an opaque array, so that every later read (the
+// compressor's label scan, the reference decoder) is a symbolic 64-way
+// selection.  The model below performs the same stores one element at a time
+// (same bounds panics: slice indexing first), which keeps constants.
+// c12_write_matches_model proves the two equal for every position and every
+// data length 0..=40 in a 64-octet buffer; harnesses that use the stub say
+// stubs="S8" and never write a longer piece.
+fn write_model<'a>(w: &mut Writer<'a>, position: usize, data: &[u8])
+where
+    'a: 'a, // early-bound, like the impl's lifetime parameter
+{
+    let dst = &mut w.octets[position..position + data.len()];
+    let mut i = 0;
+    while i < data.len() {
+        dst[i] = data[i];
+        i += 1;
+    }
+}
+
+// --------------------------------------------------------------------------
 // state snapshots: "a failed operation leaves the message unchanged"
 // --------------------------------------------------------------------------
 
@@ -300,24 +324,26 @@ fn set_limit_then_rr<const E: bool>() {
         assert!(rec.rdlen == 4 && buf[rec.rd_at] == rd[0] && buf[rec.rd_at + 3] == rd[3], "[C12] record RDATA");
         assert!(buf[rec.owner_at] == 0, "[C12] root owner");
     }
-    kani::cover!(ok && E, "record and OPT both present");
+    kani::cover!(ok, "record present in the finished message");
     core::mem::forget(q);
 }
 
 // @harness props=C12 tier=quick mem=4 t=900 fn="Writer::set_limit,Writer::add_question,Writer::add_answer_rr,Writer::add_rr,Writer::with_rollback,Writer::try_push,Writer::finish"
 //   bound="buffer 64; question a. A IN; every initial limit and every set_limit argument (usize); then one 15-octet root-owned A record with symbolic TTL and RDATA; unwind 8"
-//   sym="l0:usize, x:usize, ttl:u32, rdata:[u8;4], probe<64"
+//   sym="l0:usize, x:usize, ttl:u32, rdata:[u8;4], probe<64" stubs="S8"
 #[kani::proof]
 #[kani::unwind(8)]
+#[kani::stub(Writer::write, write_model)]
 fn c12_set_limit_plain() {
     set_limit_then_rr::<false>();
 }
 
 // @harness props=C12 tier=quick mem=4 t=900 fn="Writer::set_edns,Writer::set_limit,Writer::add_question,Writer::add_answer_rr,Writer::add_rr,Writer::finish"
 //   bound="as c12_set_limit_plain with an 11-octet OPT reservation made first; unwind 8"
-//   sym="l0:usize, x:usize, ttl:u32, rdata:[u8;4], probe<64"
+//   sym="l0:usize, x:usize, ttl:u32, rdata:[u8;4], probe<64" stubs="S8"
 #[kani::proof]
 #[kani::unwind(8)]
+#[kani::stub(Writer::write, write_model)]
 fn c12_set_limit_edns() {
     set_limit_then_rr::<true>();
 }
@@ -568,4 +594,1220 @@ fn c12_edns_extended_rcode() {
 #[kani::unwind(8)]
 fn c12_edns_set_rcode_clears_extension() {
     edns_rcode::<true>();
+}
+
+// --------------------------------------------------------------------------
+// Stub S8 is the same function as Writer::write
+// --------------------------------------------------------------------------
+
+// @harness props=C12 tier=quick mem=4 t=900 fn="Writer::write,Writer::write_u16"
+//   bound="64-octet buffer with arbitrary contents, every position (usize), every data length 0..=40 with arbitrary octets, in-bounds or not (both must panic alike: the out-of-bounds case is excluded by assumption and reported here); unwind 42"
+//   sym="buf:[u8;64], position:usize, data:[u8;40], len<=40, probe<64"
+#[kani::proof]
+#[kani::unwind(42)]
+fn c12_write_matches_model() {
+    let init: [u8; 64] = kani::any();
+    let mut b1 = init;
+    let mut b2 = init;
+    let data: [u8; 40] = kani::any();
+    let len: usize = kani::any();
+    kani::assume(len <= 40);
+    let position: usize = kani::any();
+    // both versions index `octets[position..position + len]` first and panic
+    // if that is out of range; the writer only calls write() after a space
+    // check (try_push) or at positions already written (write_u16)
+    kani::assume(position <= 64 && position + len <= 64);
+    let probe: usize = kani::any();
+    kani::assume(probe < 64);
+    {
+        let mut w1 = Writer::new(&mut b1, 64).unwrap();
+        w1.write(position, &data[..len]);
+        core::mem::forget(w1);
+    }
+    {
+        let mut w2 = Writer::new(&mut b2, 64).unwrap();
+        write_model(&mut w2, position, &data[..len]);
+        core::mem::forget(w2);
+    }
+    assert!(b1[probe] == b2[probe], "[C12] stub S8 (element-wise write) equals Writer::write on every octet");
+    if probe >= position && probe < position + len {
+        assert!(b1[probe] == data[probe - position], "[C12] write stores the data in order");
+    } else if probe >= 12 {
+        assert!(b1[probe] == init[probe], "[C12] write touches nothing else");
+    }
+    kani::cover!(len == 40 && position == 24, "longest piece at the end of the buffer");
+    kani::cover!(len == 0, "empty piece");
+}
+
+// --------------------------------------------------------------------------
+// 3./4. operation programs: C12 and C13 on the finished message
+// --------------------------------------------------------------------------
+
+const M_STD: u8 = 0;
+const M_CASE: u8 = 1;
+const M_OFF: u8 = 2;
+
+fn mode_of(m: u8) -> CompressionMode {
+    match m {
+        M_STD => CompressionMode::Standard,
+        M_CASE => CompressionMode::CasePreserving,
+        _ => CompressionMode::Disabled,
+    }
+}
+
+/// wire form inside a `name_view` array
+fn wire_of(repr: &[u8]) -> &[u8] {
+    &repr[1 + repr[0] as usize..]
+}
+
+/// One record as GIVEN to the writer (everything uncompressed).
+#[derive(Clone, Copy)]
+struct Rec<'a> {
+    /// 1 answer, 2 authority, 3 additional
+    sec: u8,
+    /// `name_view` layout
+    owner: &'a [u8],
+    rtype: u16,
+    class: u16,
+    /// raw value handed to Ttl::from
+    ttl: u32,
+    rdata: &'a [u8],
+    /// embedded name: rdata[name_at..name_at + name_len]; name_len 0 = none
+    name_at: usize,
+    name_len: usize,
+}
+
+const NO_REC: Rec<'static> = Rec {
+    sec: 0,
+    owner: &[1, 0, 0],
+    rtype: 0,
+    class: 0,
+    ttl: 0,
+    rdata: &[],
+    name_at: 0,
+    name_len: 0,
+};
+
+/// What the finished message must decode to.
+struct Expect<'a> {
+    mode: u8,
+    /// (qname in name_view layout, qtype, qclass)
+    q: Option<(&'a [u8], u16, u16)>,
+    recs: [Rec<'a>; 4],
+    n: usize,
+    /// OPT: (payload size, extended RCODE)
+    edns: Option<(u16, u16)>,
+}
+
+/// Judges the result of one add operation of uncompressed size `unc`.
+fn judge(w: &Writer, s: &Snap, res: Result<()>, unc: usize, order_ok: bool, sec: u8, added: u16) -> bool {
+    match res {
+        Ok(()) => {
+            assert!(order_ok, "[C12] an out-of-order operation is refused");
+            assert!(
+                w.cursor > s.cursor && w.cursor <= s.cursor + unc,
+                "[C12] an operation never takes more than its uncompressed encoding"
+            );
+            let want = [
+                s.counts[0] + (if sec == 0 { added } else { 0 }),
+                s.counts[1] + (if sec == 1 { added } else { 0 }),
+                s.counts[2] + (if sec == 2 { added } else { 0 }),
+                s.counts[3] + (if sec == 3 { added } else { 0 }),
+            ];
+            assert!(
+                w.qdcount == want[0] && w.ancount == want[1] && w.nscount == want[2] && w.arcount == want[3],
+                "[C12] a successful operation adds exactly its records to its section's count"
+            );
+            assert!(w.limit == s.limit && w.limit - w.available == s.limit - s.available, "[C12] add operations do not change limit or reservation");
+            assert_invariant(w, w.octets.len());
+            true
+        }
+        Err(e) => {
+            if order_ok {
+                assert!(e == Error::Truncation, "[C12] the only possible failure of an in-order add here is truncation");
+                assert!(
+                    s.cursor + unc > s.available,
+                    "[C12] an operation whose uncompressed encoding fits in the remaining space is never truncated"
+                );
+            } else {
+                assert!(e == Error::OutOfOrder, "[C12] an out-of-order operation fails with OutOfOrder");
+            }
+            assert_unchanged(w, s);
+            false
+        }
+    }
+}
+
+fn add_q(w: &mut Writer, q: &Question, probe: usize) -> bool {
+    let s = snap(w, probe);
+    let unc = q.qname.wire_repr().len() + 4;
+    let res = w.add_question(q);
+    judge(w, &s, res, unc, s.section == Section::Question, 0, 1)
+}
+
+fn add_rec(w: &mut Writer, r: &Rec, hint: Hint, order_ok: bool, probe: usize) -> bool {
+    let s = snap(w, probe);
+    let hn = HintedName::new(hint, name_view(r.owner));
+    let rdata: &Rdata = r.rdata.try_into().unwrap();
+    let (t, c, ttl) = (Type::from(r.rtype), Class::from(r.class), Ttl::from(r.ttl));
+    let res = match r.sec {
+        1 => w.add_answer_rr(hn, t, c, ttl, rdata, None),
+        2 => w.add_authority_rr(hn, t, c, ttl, rdata, None),
+        _ => w.add_additional_rr(hn, t, c, ttl, rdata, None),
+    };
+    let unc = wire_of(r.owner).len() + 10 + r.rdata.len();
+    judge(w, &s, res, unc, order_ok, r.sec, 1)
+}
+
+/// add_*_rrset of two records `a`, `b` (same owner, type, class, TTL);
+/// `raw` is the RdataSet encoding of their two RDATA.
+fn add_set2(w: &mut Writer, a: &Rec, b: &Rec, raw: &[u8], hint: Hint, order_ok: bool, probe: usize) -> bool {
+    let s = snap(w, probe);
+    let hn = HintedName::new(hint, name_view(a.owner));
+    let (t, c, ttl) = (Type::from(a.rtype), Class::from(a.class), Ttl::from(a.ttl));
+    let set = rdataset_view(raw);
+    let res = match a.sec {
+        1 => w.add_answer_rrset(hn, t, c, ttl, set, None),
+        2 => w.add_authority_rrset(hn, t, c, ttl, set, None),
+        _ => w.add_additional_rrset(hn, t, c, ttl, set, None),
+    };
+    let unc = 2 * (wire_of(a.owner).len() + 10) + a.rdata.len() + b.rdata.len();
+    judge(w, &s, res, unc, order_ok, a.sec, 2)
+}
+
+/// RFC 1035 section 4.1.4 walk of the (possibly compressed) name at `at`,
+/// compared label by label with the uncompressed name `given`.  All loop
+/// bounds come from `given` (concrete), so a symbolic position costs one
+/// selection per octet and no unwinding.  Every pointer met must point
+/// strictly backwards; at most 3 consecutive pointers are accepted before a
+/// label (more fails the assertion).  Returns the number of octets the name
+/// occupies at `at`, which must not extend beyond `end`.
+fn check_name(msg: &[u8], end: usize, at: usize, given: &[u8], exact: bool) -> usize {
+    let mut pos = at;
+    let mut used = usize::MAX;
+    let mut gi = 0;
+    loop {
+        let mut hops = 0;
+        while hops < 3 {
+            if msg[pos] < 0xc0 {
+                break;
+            }
+            let target = (((msg[pos] & 0x3f) as usize) << 8) | msg[pos + 1] as usize;
+            assert!(target < pos, "[C13] a compression pointer points strictly backwards");
+            if used == usize::MAX {
+                used = pos + 2 - at;
+            }
+            pos = target;
+            hops += 1;
+        }
+        let l = given[gi] as usize;
+        assert!(msg[pos] as usize == l, "[C12] a decompressed name has the labels of the name given (label length)");
+        let mut j = 1;
+        while j <= l {
+            if exact {
+                assert!(msg[pos + j] == given[gi + j], "[C12] decompressed name equals the name given exactly (case-preserving or disabled compression, or incompressible field)");
+            } else {
+                assert!(lower(msg[pos + j]) == lower(given[gi + j]), "[C12] decompressed name equals the name given ignoring ASCII case");
+            }
+            j += 1;
+        }
+        pos += 1 + l;
+        gi += 1 + l;
+        if used == usize::MAX {
+            assert!(pos <= end, "[C12] a name stays inside its field");
+        }
+        if l == 0 {
+            if used == usize::MAX {
+                used = pos - at;
+            }
+            break;
+        }
+    }
+    assert!(gi == given.len(), "[C12] the whole given name was compared");
+    assert!(at + used <= end, "[C12] a name stays inside its field");
+    used
+}
+
+fn check_rec(msg: &[u8], n: usize, got: &RefRec, r: &Rec, mode: u8) {
+    let want_ttl = if r.ttl > 0x7fff_ffff { 0 } else { r.ttl };
+    assert!(got.section == r.sec, "[C12] record is in the section it was added to");
+    assert!(got.rtype == r.rtype && got.class == r.class, "[C12] record TYPE and CLASS are those given");
+    assert!(got.ttl == want_ttl, "[C12] record TTL is the one given");
+    check_name(msg, n, got.owner_at, wire_of(r.owner), mode != M_STD);
+    // RDATA: octets before the name, the name, octets after it
+    let rd_end = got.rd_at + got.rdlen;
+    let mut at = got.rd_at;
+    let mut i = 0;
+    assert!(got.rdlen >= r.name_at, "[C12] RDATA is not shorter than its leading fixed part");
+    while i < r.name_at {
+        assert!(msg[at] == r.rdata[i], "[C12] RDATA octets before an embedded name are those given");
+        at += 1;
+        i += 1;
+    }
+    if r.name_len > 0 {
+        let compressible = compressible_type(r.rtype);
+        let exact = mode != M_STD || !compressible;
+        let used = check_name(msg, rd_end, at, &r.rdata[r.name_at..r.name_at + r.name_len], exact);
+        if !compressible {
+            assert!(used == r.name_len, "[C13] a name in SRV, class-specific or unknown-type RDATA is written uncompressed");
+        }
+        at += used;
+        i += r.name_len;
+    }
+    assert!(rd_end - at == r.rdata.len() - i, "[C12] RDATA has the given length after the embedded name");
+    while i < r.rdata.len() {
+        assert!(msg[at] == r.rdata[i], "[C12] RDATA octets after an embedded name are those given");
+        at += 1;
+        i += 1;
+    }
+}
+
+fn verify(msg: &[u8], n: usize, limit: usize, e: &Expect) -> usize {
+    assert!(n <= limit, "[C12] the finished message does not exceed the limit in effect");
+    let mut per = [0usize; 4];
+    per[0] = e.q.is_some() as usize;
+    let mut k = 0;
+    while k < e.n {
+        per[e.recs[k].sec as usize] += 1;
+        k += 1;
+    }
+    per[3] += e.edns.is_some() as usize;
+    let m = ref_decode_lim(msg, n, per, 8);
+    assert!(m.wellformed, "[C12] the finished message decodes completely and ends at the returned length");
+    assert!(
+        m.counts[0] as usize == per[0] && m.counts[1] as usize == per[1] && m.counts[2] as usize == per[2] && m.counts[3] as usize == per[3],
+        "[C12] header counts are those of the successful operations"
+    );
+    // C13
+    assert!(m.pointers_ok, "[C13] every pointer points strictly backwards to the first octet of a label of an earlier name");
+    assert!(!m.forbidden_pointer, "[C13] no pointer inside SRV, class-specific or unknown-type RDATA");
+    if e.mode == M_OFF {
+        assert!(m.n_pointers == 0, "[C13] no pointer at all when compression is disabled");
+    }
+    if let Some((qn, qt, qc)) = e.q {
+        let used = check_name(msg, n, 12, wire_of(qn), true);
+        assert!(used == wire_of(qn).len(), "[C12] the first name of a message is written in full");
+        assert!(m.qtype == qt && m.qclass == qc && m.q_end == 12 + used + 4, "[C12] QTYPE and QCLASS are those given");
+    }
+    assert!(m.n_recs == e.n + e.edns.is_some() as usize, "[C12] the message holds exactly the records of the successful operations");
+    let mut k = 0;
+    while k < e.n {
+        check_rec(msg, n, &m.recs[k], &e.recs[k], e.mode);
+        k += 1;
+    }
+    if let Some((payload, xr)) = e.edns {
+        let opt = &m.recs[e.n];
+        assert!(m.n_opt == 1 && m.opt_placement_ok && opt.section == 3, "[C12] exactly one OPT, last in the additional section");
+        assert!(msg[opt.owner_at] == 0 && opt.rtype == T_OPT && opt.class == payload && opt.rdlen == 0, "[C12] OPT as configured");
+        assert!(opt.ttl & 0x00ff_ffff == 0, "[C12] EDNS version 0, no flags");
+        assert!(((((opt.ttl >> 24) as u16) << 4) | (m.flags & 0xf)) == xr, "[C12] extended RCODE as set");
+    } else {
+        assert!(m.n_opt == 0, "[C12] no OPT without set_edns");
+    }
+    assert!(m.n_tsig == 0, "[C12] no TSIG without set_tsig");
+    m.n_pointers
+}
+
+/// finish, then verify against `e`
+macro_rules! done {
+    ($w:ident, $buf:ident, $e:expr) => {{
+        let limit = $w.limit;
+        let n = $w.finish();
+        let pointers = verify(&$buf, n, limit, $e);
+        (n, pointers)
+    }};
+}
+
+/// What a program run reports to its wrapper for the cover witnesses
+/// (covers inside a const-generic body would be dead code in some
+/// instantiations and count as unsatisfied).
+#[derive(Clone, Copy)]
+struct Out {
+    /// the last operation was refused and rolled back
+    truncated: bool,
+    /// compression pointers in the finished message
+    pointers: usize,
+    /// final length
+    n: usize,
+}
+
+
+fn new_expect<'a>(mode: u8) -> Expect<'a> {
+    Expect {
+        mode,
+        q: None,
+        recs: [NO_REC; 4],
+        n: 0,
+        edns: None,
+    }
+}
+
+/// The common tail of every program: the LAST operation runs under an
+/// arbitrary limit (set_limit(any) just before it, so truncation can strike
+/// at each of its push sites while the prefix stays free of joins); then
+/// finish and verify, on the refused and on the accepted path separately.
+macro_rules! last_then_done {
+    ($w:ident, $buf:ident, $e:ident, $q:ident, $ok:expr, $($rec:expr),*) => {{
+        let ok: bool = $ok;
+        if !ok {
+            let (n, pointers) = done!($w, $buf, &$e);
+            core::mem::forget($q);
+            return Out { truncated: true, pointers, n };
+        }
+        $(
+            $e.recs[$e.n] = $rec;
+            $e.n += 1;
+        )*
+        let (n, pointers) = done!($w, $buf, &$e);
+        core::mem::forget($q);
+        return Out { truncated: false, pointers, n };
+    }};
+}
+
+/// Program A: question, then ONE answer record whose owner and RDATA name
+/// are case variants / suffixes of the QNAME.
+///   QNAME  x.y.   (x in {a,A}, y in {b,B})
+///   owner  x.y.   (own case bits) Hint::None
+///   RDATA  MX preference, y. (own case bit)
+fn prog_q_mx<const M: u8>() -> Out {
+    let mut buf = [0u8; 64];
+    let probe: usize = kani::any();
+    kani::assume(probe < 64);
+    let mut w = Writer::new(&mut buf, 64).unwrap();
+    w.set_compression_mode(mode_of(M));
+    let qn = [3, 0, 2, 4, 1, any_case(b'a'), 1, any_case(b'b'), 0];
+    let (qt, qc): (u16, u16) = (kani::any(), kani::any());
+    let q = Question {
+        qname: name_view(&qn).to_owned(),
+        qtype: qt.into(),
+        qclass: qc.into(),
+    };
+    let mut e = new_expect(M);
+    let ok = add_q(&mut w, &q, probe);
+    assert!(ok && w.cursor == 21, "[C12] question written in full");
+    e.q = Some((&qn, qt, qc));
+    w.set_limit(kani::any());
+    let on = [3, 0, 2, 4, 1, any_case(b'a'), 1, any_case(b'b'), 0];
+    let rd = [kani::any(), kani::any(), 1, any_case(b'b'), 0];
+    let r = Rec {
+        sec: 1,
+        owner: &on,
+        rtype: T_MX,
+        class: 1,
+        ttl: kani::any(),
+        rdata: &rd,
+        name_at: 2,
+        name_len: 3,
+    };
+    last_then_done!(w, buf, e, q, add_rec(&mut w, &r, Hint::None, true, probe), r)
+}
+
+// @harness props=C12,C13 tier=quick mem=4 t=1500 kani="--no-assertion-reach-checks" fn="Writer::add_question,Writer::add_answer_rr,Writer::add_rr,Writer::with_rollback,Writer::write_hinted_name,Writer::write_unhinted_name,Writer::write_compressed_unhinted_name,Writer::write_uncompressed_name,Writer::try_push,Writer::set_limit,Writer::set_compression_mode,Writer::finish,Rdata::components"
+//   bound="buffer 64; program: question x.y. (both letters either case, QTYPE/QCLASS any) ; set_limit(any) ; add_answer_rr(owner x.y. with its own case bits, Hint::None, MX, IN, any TTL, any preference, exchange y.) ; finish - Standard mode; unwind 8"
+//   sym="5 case bits, qtype, qclass, limit:usize, ttl:u32, pref:2 octets, probe<64" stubs="S8"
+#[kani::proof]
+#[kani::unwind(8)]
+#[kani::stub(Writer::write, write_model)]
+fn c12_prog_q_mx_standard() {
+    let o = prog_q_mx::<M_STD>();
+    kani::cover!(!o.truncated && o.pointers == 2 && o.n == 21 + 2 + 10 + 2 + 2, "owner and exchange both replaced by pointers");
+    kani::cover!(o.truncated, "record truncated and rolled back");
+}
+
+// @harness props=C12,C13 tier=quick mem=4 t=1500 kani="--no-assertion-reach-checks" fn="Writer::add_question,Writer::add_answer_rr,Writer::add_rr,Writer::write_compressed_unhinted_name,Writer::set_limit,Writer::finish,Rdata::components"
+//   bound="as c12_prog_q_mx_standard in CasePreserving mode; unwind 8"
+//   sym="5 case bits, qtype, qclass, limit:usize, ttl:u32, pref:2 octets, probe<64" stubs="S8"
+#[kani::proof]
+#[kani::unwind(8)]
+#[kani::stub(Writer::write, write_model)]
+fn c12_prog_q_mx_casepreserving() {
+    let o = prog_q_mx::<M_CASE>();
+    kani::cover!(!o.truncated && o.pointers == 2 && o.n == 21 + 4 + 10 + 2 + 2, "owner partially compressed (first label differs in case)");
+    kani::cover!(!o.truncated && o.pointers == 0, "case differences prevent all compression");
+}
+
+// @harness props=C12,C13 tier=quick mem=4 t=1500 kani="--no-assertion-reach-checks" fn="Writer::add_question,Writer::add_answer_rr,Writer::add_rr,Writer::write_uncompressed_name,Writer::set_limit,Writer::finish,Rdata::components"
+//   bound="as c12_prog_q_mx_standard with compression Disabled; unwind 8"
+//   sym="5 case bits, qtype, qclass, limit:usize, ttl:u32, pref:2 octets, probe<64" stubs="S8"
+#[kani::proof]
+#[kani::unwind(8)]
+#[kani::stub(Writer::write, write_model)]
+fn c12_prog_q_mx_disabled() {
+    let o = prog_q_mx::<M_OFF>();
+    kani::cover!(!o.truncated && o.n == 21 + 5 + 10 + 2 + 3, "everything written in full");
+    kani::cover!(o.truncated, "record truncated and rolled back");
+}
+
+/// Program B: truthful hints.
+///   QNAME x.y. ; answer A  owner x.y. Hint::Qname
+///              ; answer NS owner x.y. Hint::MostRecentOwner, RDATA y.
+/// (every occurrence has its own case bits: the names are equal ignoring
+/// case, which is what the hint contract asks for)
+fn prog_hints<const M: u8>() -> Out {
+    let mut buf = [0u8; 64];
+    let probe: usize = kani::any();
+    kani::assume(probe < 64);
+    let mut w = Writer::new(&mut buf, 64).unwrap();
+    w.set_compression_mode(mode_of(M));
+    let qn = [3, 0, 2, 4, 1, any_case(b'a'), 1, any_case(b'b'), 0];
+    let (qt, qc): (u16, u16) = (kani::any(), kani::any());
+    let q = Question {
+        qname: name_view(&qn).to_owned(),
+        qtype: qt.into(),
+        qclass: qc.into(),
+    };
+    let mut e = new_expect(M);
+    let ok = add_q(&mut w, &q, probe);
+    assert!(ok, "[C12] question fits");
+    e.q = Some((&qn, qt, qc));
+    let on1 = [3, 0, 2, 4, 1, any_case(b'a'), 1, any_case(b'b'), 0];
+    let rd1: [u8; 4] = kani::any();
+    let r1 = Rec {
+        sec: 1,
+        owner: &on1,
+        rtype: T_A,
+        class: 1,
+        ttl: kani::any(),
+        rdata: &rd1,
+        name_at: 4,
+        name_len: 0,
+    };
+    let ok = add_rec(&mut w, &r1, Hint::Qname, true, probe);
+    assert!(ok, "[C12] first record fits");
+    e.recs[0] = r1;
+    e.n = 1;
+    w.set_limit(kani::any());
+    let on2 = [3, 0, 2, 4, 1, any_case(b'a'), 1, any_case(b'b'), 0];
+    let rd2 = [1, any_case(b'b'), 0];
+    let r2 = Rec {
+        sec: 1,
+        owner: &on2,
+        rtype: T_NS,
+        class: 1,
+        ttl: kani::any(),
+        rdata: &rd2,
+        name_at: 0,
+        name_len: 3,
+    };
+    last_then_done!(w, buf, e, q, add_rec(&mut w, &r2, Hint::MostRecentOwner, true, probe), r2)
+}
+
+// @harness props=C12,C13 tier=quick mem=4 t=1500 kani="--no-assertion-reach-checks" fn="Writer::add_question,Writer::add_answer_rr,Writer::add_rr,Writer::write_hinted_name,Writer::write_compressed_unhinted_name,Writer::set_limit,Writer::finish"
+//   bound="buffer 64; question x.y. ; add_answer_rr(owner = QNAME up to case, Hint::Qname, A) ; set_limit(any) ; add_answer_rr(owner = same up to case, Hint::MostRecentOwner, NS y.) ; finish - Standard mode; unwind 8"
+//   sym="7 case bits, qtype, qclass, limit:usize, 2 ttl, rdata:[u8;4], probe<64" stubs="S8"
+#[kani::proof]
+#[kani::unwind(8)]
+#[kani::stub(Writer::write, write_model)]
+fn c12_prog_hints_standard() {
+    let o = prog_hints::<M_STD>();
+    kani::cover!(!o.truncated && o.pointers == 3, "both hinted owners and the NS name are pointers");
+    kani::cover!(o.truncated, "second record truncated and rolled back");
+}
+
+// @harness props=C12,C13 tier=quick mem=4 t=1500 kani="--no-assertion-reach-checks" fn="Writer::add_question,Writer::add_answer_rr,Writer::add_rr,Writer::write_hinted_name,Writer::write_compressed_unhinted_name,Writer::set_limit,Writer::finish"
+//   bound="as c12_prog_hints_standard in CasePreserving mode (hints are ignored, names compared exactly); unwind 8"
+//   sym="7 case bits, qtype, qclass, limit:usize, 2 ttl, rdata:[u8;4], probe<64" stubs="S8"
+#[kani::proof]
+#[kani::unwind(8)]
+#[kani::stub(Writer::write, write_model)]
+fn c12_prog_hints_casepreserving() {
+    let o = prog_hints::<M_CASE>();
+    kani::cover!(!o.truncated && o.pointers == 3, "all three names compressed although hints are ignored");
+    kani::cover!(!o.truncated && o.pointers == 0, "hinted owners written in full because their case differs");
+}
+
+// @harness props=C12,C13 tier=thorough mem=4 t=1500 kani="--no-assertion-reach-checks" fn="Writer::add_question,Writer::add_answer_rr,Writer::add_rr,Writer::write_hinted_name,Writer::write_uncompressed_name,Writer::set_limit,Writer::finish"
+//   bound="as c12_prog_hints_standard with compression Disabled (hints must not produce pointers); unwind 8"
+//   sym="7 case bits, qtype, qclass, limit:usize, 2 ttl, rdata:[u8;4], probe<64" stubs="S8"
+#[kani::proof]
+#[kani::unwind(8)]
+#[kani::stub(Writer::write, write_model)]
+fn c12_prog_hints_disabled() {
+    let o = prog_hints::<M_OFF>();
+    kani::cover!(!o.truncated && o.n == 21 + 19 + 18, "everything written in full");
+}
+
+/// Program C: RDATA that must not be compressed (RFC 3597 section 4).
+///   QNAME x. ; answer SRV (IN) owner x. Hint::Qname, target x.
+///            ; additional TYPE65280 owner x. Hint::None,
+///              RDATA = 01 x 00 ?? (looks like a name; must be copied verbatim)
+fn prog_srv_unknown<const M: u8>() -> Out {
+    let mut buf = [0u8; 64];
+    let probe: usize = kani::any();
+    kani::assume(probe < 64);
+    let mut w = Writer::new(&mut buf, 64).unwrap();
+    w.set_compression_mode(mode_of(M));
+    let qn = [2, 0, 2, 1, any_case(b'a'), 0];
+    let (qt, qc): (u16, u16) = (kani::any(), kani::any());
+    let q = Question {
+        qname: name_view(&qn).to_owned(),
+        qtype: qt.into(),
+        qclass: qc.into(),
+    };
+    let mut e = new_expect(M);
+    let ok = add_q(&mut w, &q, probe);
+    assert!(ok, "[C12] question fits");
+    e.q = Some((&qn, qt, qc));
+    let on1 = [2, 0, 2, 1, any_case(b'a'), 0];
+    let rd1 = [kani::any(), kani::any(), kani::any(), kani::any(), kani::any(), kani::any(), 1, any_case(b'a'), 0];
+    let r1 = Rec {
+        sec: 1,
+        owner: &on1,
+        rtype: T_SRV,
+        class: 1,
+        ttl: kani::any(),
+        rdata: &rd1,
+        name_at: 6,
+        name_len: 3,
+    };
+    let ok = add_rec(&mut w, &r1, Hint::Qname, true, probe);
+    assert!(ok, "[C12] SRV record fits");
+    e.recs[0] = r1;
+    e.n = 1;
+    w.set_limit(kani::any());
+    let on2 = [2, 0, 2, 1, any_case(b'a'), 0];
+    let rd2 = [1, any_case(b'a'), 0, kani::any()];
+    let r2 = Rec {
+        sec: 3,
+        owner: &on2,
+        rtype: 65280,
+        class: 1,
+        ttl: kani::any(),
+        rdata: &rd2,
+        name_at: 4,
+        name_len: 0,
+    };
+    last_then_done!(w, buf, e, q, add_rec(&mut w, &r2, Hint::None, true, probe), r2)
+}
+
+// @harness props=C12,C13 tier=quick mem=4 t=1500 kani="--no-assertion-reach-checks" fn="Writer::add_question,Writer::add_answer_rr,Writer::add_additional_rr,Writer::add_rr,Writer::write_hinted_name,Writer::write_compressed_unhinted_name,Writer::write_uncompressed_name,Writer::finish,Rdata::components,Rdata::components_as_in_srv"
+//   bound="buffer 64; question x. ; add_answer_rr(x. Hint::Qname, SRV IN, 6 arbitrary octets + target x.) ; set_limit(any) ; add_additional_rr(x. Hint::None, TYPE65280, RDATA 01 x 00 ??) ; finish - Standard mode; unwind 8"
+//   sym="5 case bits, qtype, qclass, limit:usize, 2 ttl, 7 RDATA octets, probe<64" stubs="S8"
+#[kani::proof]
+#[kani::unwind(8)]
+#[kani::stub(Writer::write, write_model)]
+fn c13_prog_srv_unknown_standard() {
+    let o = prog_srv_unknown::<M_STD>();
+    kani::cover!(!o.truncated && o.pointers == 2, "both owners are pointers, no RDATA name is");
+    kani::cover!(o.truncated, "unknown-type record truncated and rolled back");
+}
+
+// @harness props=C12,C13 tier=quick mem=4 t=1500 kani="--no-assertion-reach-checks" fn="Writer::add_question,Writer::add_answer_rr,Writer::add_additional_rr,Writer::add_rr,Writer::write_compressed_unhinted_name,Writer::write_uncompressed_name,Writer::finish,Rdata::components"
+//   bound="as c13_prog_srv_unknown_standard in CasePreserving mode; unwind 8"
+//   sym="5 case bits, qtype, qclass, limit:usize, 2 ttl, 7 RDATA octets, probe<64" stubs="S8"
+#[kani::proof]
+#[kani::unwind(8)]
+#[kani::stub(Writer::write, write_model)]
+fn c13_prog_srv_unknown_casepreserving() {
+    let o = prog_srv_unknown::<M_CASE>();
+    kani::cover!(!o.truncated && o.pointers == 2, "both owners are pointers, no RDATA name is");
+    kani::cover!(!o.truncated && o.pointers == 0, "no compression at all");
+}
+
+/// Program D: Chaosnet A (class-specific: its name must stay uncompressed)
+/// in the authority section, then TXT in the additional section.
+fn prog_cha_txt<const M: u8>() -> Out {
+    let mut buf = [0u8; 64];
+    let probe: usize = kani::any();
+    kani::assume(probe < 64);
+    let mut w = Writer::new(&mut buf, 64).unwrap();
+    w.set_compression_mode(mode_of(M));
+    let qn = [2, 0, 2, 1, any_case(b'a'), 0];
+    let (qt, qc): (u16, u16) = (kani::any(), kani::any());
+    let q = Question {
+        qname: name_view(&qn).to_owned(),
+        qtype: qt.into(),
+        qclass: qc.into(),
+    };
+    let mut e = new_expect(M);
+    let ok = add_q(&mut w, &q, probe);
+    assert!(ok, "[C12] question fits");
+    e.q = Some((&qn, qt, qc));
+    let on1 = [2, 0, 2, 1, any_case(b'a'), 0];
+    let rd1 = [1, any_case(b'a'), 0, kani::any(), kani::any()];
+    let r1 = Rec {
+        sec: 2,
+        owner: &on1,
+        rtype: T_A,
+        class: 3,
+        ttl: kani::any(),
+        rdata: &rd1,
+        name_at: 0,
+        name_len: 3,
+    };
+    let ok = add_rec(&mut w, &r1, Hint::Qname, true, probe);
+    assert!(ok, "[C12] CH A record fits");
+    e.recs[0] = r1;
+    e.n = 1;
+    w.set_limit(kani::any());
+    let on2 = [2, 0, 2, 1, any_case(b'a'), 0];
+    let rd2 = [2, kani::any(), kani::any()];
+    let r2 = Rec {
+        sec: 3,
+        owner: &on2,
+        rtype: T_TXT,
+        class: 1,
+        ttl: kani::any(),
+        rdata: &rd2,
+        name_at: 3,
+        name_len: 0,
+    };
+    last_then_done!(w, buf, e, q, add_rec(&mut w, &r2, Hint::MostRecentOwner, true, probe), r2)
+}
+
+// @harness props=C12,C13 tier=quick mem=4 t=1500 kani="--no-assertion-reach-checks" fn="Writer::add_question,Writer::add_authority_rr,Writer::add_additional_rr,Writer::add_rr,Writer::write_hinted_name,Writer::write_uncompressed_name,Writer::finish,Rdata::components,Rdata::components_as_ch_a"
+//   bound="buffer 64; question x. ; add_authority_rr(x. Hint::Qname, A in class CH, name x. + 2 octets) ; set_limit(any) ; add_additional_rr(x. Hint::MostRecentOwner, TXT 2 octets) ; finish - Standard mode; unwind 8"
+//   sym="4 case bits, qtype, qclass, limit:usize, 2 ttl, 4 RDATA octets, probe<64" stubs="S8"
+#[kani::proof]
+#[kani::unwind(8)]
+#[kani::stub(Writer::write, write_model)]
+fn c13_prog_cha_txt_standard() {
+    let o = prog_cha_txt::<M_STD>();
+    kani::cover!(!o.truncated && o.pointers == 2, "both owners are pointers, the CH A name is not");
+    kani::cover!(o.truncated, "TXT record truncated and rolled back");
+}
+
+/// Program E: an RRset of two NS records as the last operation (a failure
+/// in the second record must roll back the first as well).
+fn prog_rrset<const M: u8>() -> Out {
+    let mut buf = [0u8; 64];
+    let probe: usize = kani::any();
+    kani::assume(probe < 64);
+    let mut w = Writer::new(&mut buf, 64).unwrap();
+    w.set_compression_mode(mode_of(M));
+    let qn = [3, 0, 2, 4, 1, b'a', 1, b'b', 0];
+    let (qt, qc): (u16, u16) = (kani::any(), kani::any());
+    let q = Question {
+        qname: name_view(&qn).to_owned(),
+        qtype: qt.into(),
+        qclass: qc.into(),
+    };
+    let mut e = new_expect(M);
+    let ok = add_q(&mut w, &q, probe);
+    assert!(ok, "[C12] question fits");
+    e.q = Some((&qn, qt, qc));
+    w.set_limit(kani::any());
+    let on = [3, 0, 2, 4, 1, any_case(b'a'), 1, b'b', 0];
+    // RdataSet encoding: native-endian u16 length, RDATA, ...
+    let raw = [3, 0, 1, any_case(b'b'), 0, 5, 0, 1, any_case(b'a'), 1, any_case(b'b'), 0];
+    let ttl: u32 = kani::any();
+    let ra = Rec {
+        sec: 1,
+        owner: &on,
+        rtype: T_NS,
+        class: 1,
+        ttl,
+        rdata: &raw[2..5],
+        name_at: 0,
+        name_len: 3,
+    };
+    let rb = Rec {
+        sec: 1,
+        owner: &on,
+        rtype: T_NS,
+        class: 1,
+        ttl,
+        rdata: &raw[7..12],
+        name_at: 0,
+        name_len: 5,
+    };
+    last_then_done!(w, buf, e, q, add_set2(&mut w, &ra, &rb, &raw, Hint::Qname, true, probe), ra, rb)
+}
+
+// @harness props=C12,C13 tier=quick mem=5 t=1800 kani="--no-assertion-reach-checks" fn="Writer::add_question,Writer::add_answer_rrset,Writer::add_rrset,Writer::add_rr,Writer::with_rollback,Writer::write_hinted_name,Writer::write_compressed_unhinted_name,Writer::finish,RdataSet::iter"
+//   bound="buffer 64; question a.b. ; set_limit(any) ; add_answer_rrset(x.b. Hint::Qname, NS, {y., x.y.}) with case bits on x, y ; finish - Standard mode; unwind 8"
+//   sym="4 case bits, qtype, qclass, limit:usize, ttl, probe<64" stubs="S8"
+#[kani::proof]
+#[kani::unwind(8)]
+#[kani::stub(Writer::write, write_model)]
+fn c12_prog_rrset_standard() {
+    let o = prog_rrset::<M_STD>();
+    kani::cover!(!o.truncated && o.pointers == 4, "two owners and two NS names, all pointers");
+    kani::cover!(o.truncated, "whole RRset rolled back");
+}
+
+// @harness props=C12,C13 tier=thorough mem=5 t=1800 kani="--no-assertion-reach-checks" fn="Writer::add_question,Writer::add_answer_rrset,Writer::add_rrset,Writer::add_rr,Writer::write_compressed_unhinted_name,Writer::finish,RdataSet::iter"
+//   bound="as c12_prog_rrset_standard in CasePreserving mode; unwind 8"
+//   sym="4 case bits, qtype, qclass, limit:usize, ttl, probe<64" stubs="S8"
+#[kani::proof]
+#[kani::unwind(8)]
+#[kani::stub(Writer::write, write_model)]
+fn c12_prog_rrset_casepreserving() {
+    let o = prog_rrset::<M_CASE>();
+    kani::cover!(!o.truncated && o.pointers >= 3, "compressed although names are compared exactly");
+    kani::cover!(o.truncated, "whole RRset rolled back");
+}
+
+// --------------------------------------------------------------------------
+// section order, clear_rrs, count overflow
+// --------------------------------------------------------------------------
+
+// @harness props=C12,C13 tier=quick mem=4 t=1500 kani="--no-assertion-reach-checks" fn="Writer::set_edns,Writer::add_question,Writer::add_answer_rr,Writer::add_authority_rr,Writer::add_additional_rr,Writer::change_section_to_answer,Writer::change_section_to_authority,Writer::clear_rrs,Writer::with_rollback,Writer::finish"
+//   bound="buffer 64, Standard mode; set_edns(any payload) ; question x. ; answer A (Hint::Qname) ; authority A (Hint::MostRecentOwner) ; answer A -> OutOfOrder ; question -> OutOfOrder ; additional A that does not fit -> Truncation ; clear_rrs ; additional A (Hint::MostRecentOwner with no anchor left) ; finish; unwind 8"
+//   sym="4 case bits, payload, qtype, qclass, 4 ttl, 4x4 RDATA octets, probe<64" stubs="S8"
+#[kani::proof]
+#[kani::unwind(8)]
+#[kani::stub(Writer::write, write_model)]
+fn c12_prog_order_clear() {
+    let mut buf = [0u8; 64];
+    let probe: usize = kani::any();
+    kani::assume(probe < 64);
+    let mut w = Writer::new(&mut buf, 64).unwrap();
+    let payload: u16 = kani::any();
+    assert!(w.set_edns(payload).is_ok(), "[C12] OPT reservation fits");
+    let qn = [2, 0, 2, 1, any_case(b'a'), 0];
+    let (qt, qc): (u16, u16) = (kani::any(), kani::any());
+    let q = Question {
+        qname: name_view(&qn).to_owned(),
+        qtype: qt.into(),
+        qclass: qc.into(),
+    };
+    let mut e = new_expect(M_STD);
+    e.edns = Some((payload, 0));
+    assert!(add_q(&mut w, &q, probe), "[C12] question fits");
+    e.q = Some((&qn, qt, qc));
+    let on = [2, 0, 2, 1, any_case(b'a'), 0];
+    let rd: [[u8; 4]; 4] = kani::any();
+    let ttl: [u32; 4] = kani::any();
+    let r1 = Rec {
+        sec: 1,
+        owner: &on,
+        rtype: T_A,
+        class: 1,
+        ttl: ttl[0],
+        rdata: &rd[0],
+        name_at: 4,
+        name_len: 0,
+    };
+    let r2 = Rec { sec: 2, ttl: ttl[1], rdata: &rd[1], ..r1 };
+    let r3 = Rec { sec: 1, ttl: ttl[2], rdata: &rd[2], ..r1 };
+    let r4 = Rec { sec: 3, owner: &[1, 0, 0], ttl: ttl[3], rdata: &rd[3], ..r1 };
+    assert!(add_rec(&mut w, &r1, Hint::Qname, true, probe), "[C12] answer record fits");
+    assert!(add_rec(&mut w, &r2, Hint::MostRecentOwner, true, probe), "[C12] authority record fits");
+    assert!(w.cursor == 51 && w.section == Section::Authority, "[C12] two 16-octet records after the question");
+    // out of order: refused, nothing changes (judge checks both)
+    assert!(!add_rec(&mut w, &r3, Hint::Qname, false, probe), "[C12] answer after authority is refused");
+    assert!(!add_q(&mut w, &q, probe), "[C12] question after records is refused");
+    // 15 octets do not fit in the 2 that the OPT reservation leaves
+    assert!(!add_rec(&mut w, &r4, Hint::None, true, probe), "[C12] record that would eat the OPT reservation is refused");
+    let s = snap(&w, probe);
+    w.clear_rrs();
+    assert!(w.cursor == 19 && w.rr_start == 19 && w.section == Section::Question, "[C12] clear_rrs goes back to the end of the question section");
+    assert!(w.qdcount == 1 && w.ancount == 0 && w.nscount == 0 && w.arcount == 1, "[C12] clear_rrs keeps the question and the reserved OPT");
+    assert!(w.limit == s.limit && w.available == s.available, "[C12] clear_rrs keeps limit and reservation");
+    assert!(probe >= 19 || w.octets[probe] == s.probe_val, "[C12] clear_rrs leaves header and question octets alone");
+    assert!(prior(w.qname) == s.qname && w.most_recent_owner.is_none() && w.most_recent_name_in_rdata.is_none(), "[C13] clear_rrs drops the anchors of removed names and keeps the QNAME anchor");
+    let r5 = Rec { sec: 3, ttl: ttl[3], rdata: &rd[3], ..r1 };
+    assert!(add_rec(&mut w, &r5, Hint::MostRecentOwner, true, probe), "[C12] record fits after clear_rrs");
+    e.recs[0] = r5;
+    e.n = 1;
+    let (n, pointers) = done!(w, buf, &e);
+    kani::cover!(n == 19 + 16 + 11 && pointers == 1, "question, one compressed record and the OPT remain");
+    core::mem::forget(q);
+}
+
+// @harness props=C12 tier=quick mem=4 t=1200 kani="--no-assertion-reach-checks" fn="Writer::add_question,Writer::add_answer_rr,Writer::add_answer_rrset,Writer::add_authority_rr,Writer::add_additional_rr,Writer::set_edns,Writer::with_rollback"
+//   bound="buffer 64; counters set to 65535/65534 by the harness (reaching them through the API needs 65535 records), then one add per section, one 2-record RRset, set_edns and add_question: all must fail with CountOverflow and change nothing; unwind 8"
+//   sym="rdata octets, probe<64" stubs="S8"
+#[kani::proof]
+#[kani::unwind(8)]
+#[kani::stub(Writer::write, write_model)]
+fn c12_count_overflow_rolls_back() {
+    let mut buf = [0u8; 64];
+    let probe: usize = kani::any();
+    kani::assume(probe < 64);
+    let mut w = Writer::new(&mut buf, 64).unwrap();
+    let rd: [u8; 4] = kani::any();
+    let rdata: &Rdata = (&rd).try_into().unwrap();
+    let raw = [4, 0, rd[0], rd[1], rd[2], rd[3], 4, 0, rd[3], rd[2], rd[1], rd[0]];
+    let root = HintedName::new(Hint::None, Name::root());
+    let q = Question {
+        qname: name_view(&N_A).to_owned(),
+        qtype: Type::A.into(),
+        qclass: Class::IN.into(),
+    };
+    w.qdcount = u16::MAX;
+    let s = snap(&w, probe);
+    assert!(w.add_question(&q) == Err(Error::CountOverflow), "[C12] 65536th question refused");
+    assert_unchanged(&w, &s);
+    w.ancount = u16::MAX;
+    let s = snap(&w, probe);
+    assert!(w.add_answer_rr(root, Type::A, Class::IN, Ttl::from(1), rdata, None) == Err(Error::CountOverflow), "[C12] 65536th answer refused");
+    assert_unchanged(&w, &s);
+    w.ancount = u16::MAX - 1;
+    let s = snap(&w, probe);
+    assert!(
+        w.add_answer_rrset(root, Type::A, Class::IN, Ttl::from(1), rdataset_view(&raw), None) == Err(Error::CountOverflow),
+        "[C12] RRset that would overflow ANCOUNT refused as a whole"
+    );
+    assert_unchanged(&w, &s);
+    w.nscount = u16::MAX;
+    let s = snap(&w, probe);
+    assert!(w.add_authority_rr(root, Type::A, Class::IN, Ttl::from(1), rdata, None) == Err(Error::CountOverflow), "[C12] 65536th authority record refused");
+    assert_unchanged(&w, &s);
+    w.arcount = u16::MAX;
+    let s = snap(&w, probe);
+    assert!(w.add_additional_rr(root, Type::A, Class::IN, Ttl::from(1), rdata, None) == Err(Error::CountOverflow), "[C12] 65536th additional record refused");
+    assert_unchanged(&w, &s);
+    assert!(w.set_edns(512) == Err(Error::CountOverflow), "[C12] OPT that would overflow ARCOUNT refused");
+    assert_unchanged(&w, &s);
+    assert!(w.edns.is_none(), "[C12] refused set_edns leaves the message non-EDNS");
+    kani::cover!(w.cursor == 12 && w.section == Section::Question, "all five refusals rolled back to the empty message");
+    core::mem::forget(q);
+    core::mem::forget(w);
+}
+
+// --------------------------------------------------------------------------
+// TSIG (TsigMode::Unsigned only: the signing modes reach HMAC-SHA code that
+// Kani cannot translate - inline assembly)
+// --------------------------------------------------------------------------
+
+// @harness props=C12,C13 tier=quick mem=5 t=1800 kani="--no-assertion-reach-checks" fn="Writer::set_tsig,Writer::update_time_signed,Writer::add_question,Writer::add_answer_rr,Writer::set_limit,Writer::finish,Writer::finish_with_mac,PreparedTsigRr::unsigned_len,PreparedTsigRr::unsigned,Rdata::new_tsig"
+//   bound="buffer 64; set_tsig(Unsigned, key k., algorithm h., any time/fudge/original id/error != BADTIME) ; question x. ; set_limit(any) ; a 15-octet record that can never fit beside the 32-octet TSIG reservation ; update_time_signed(any) ; finish; unwind 8"
+//   sym="case bit, 2x6 time octets, fudge, original id, error, qtype, qclass, limit:usize, probe<64" stubs="S8"
+#[kani::proof]
+#[kani::unwind(8)]
+#[kani::stub(Writer::write, write_model)]
+fn c12_tsig_unsigned() {
+    let mut buf = [0u8; 64];
+    let probe: usize = kani::any();
+    kani::assume(probe < 64);
+    let mut w = Writer::new(&mut buf, 64).unwrap();
+    let key: Box<LowercaseName> = name_view(&[2, 0, 2, 1, b'k', 0]).to_owned().into();
+    let alg: Box<LowercaseName> = name_view(&[2, 0, 2, 1, b'h', 0]).to_owned().into();
+    let t1: [u8; 6] = kani::any();
+    let t2: [u8; 6] = kani::any();
+    let (fudge, oid, err): (u16, u16, u16) = (kani::any(), kani::any(), kani::any());
+    kani::assume(err != 18); // BADTIME adds 6 octets of "other data": not covered
+    let rr = PreparedTsigRr {
+        key_name: key,
+        time_signed: TimeSigned::from(t1),
+        fudge,
+        original_id: oid,
+        error: ExtendedRcode::from(err),
+        server_time: TimeSigned::from(t1),
+    };
+    assert!(w.update_time_signed(TimeSigned::from(t2)) == Err(Error::NotTsig), "[C12] update_time_signed without TSIG refused");
+    assert!(w.set_tsig(TsigMode::Unsigned { algorithm: alg }, rr).is_ok(), "[C12] TSIG reservation fits");
+    assert!(w.arcount == 1 && w.available == 64 - 32 && w.cursor == 12, "[C12] 32 octets reserved for the unsigned TSIG record");
+    let qn = [2, 0, 2, 1, any_case(b'a'), 0];
+    let (qt, qc): (u16, u16) = (kani::any(), kani::any());
+    let q = Question {
+        qname: name_view(&qn).to_owned(),
+        qtype: qt.into(),
+        qclass: qc.into(),
+    };
+    assert!(add_q(&mut w, &q, probe), "[C12] question fits");
+    w.set_limit(kani::any());
+    assert!(w.limit >= 51 && w.available == w.limit - 32, "[C12] set_limit keeps the TSIG reservation");
+    let rd: [u8; 4] = kani::any();
+    let r = Rec {
+        sec: 1,
+        owner: &[1, 0, 0],
+        rtype: T_A,
+        class: 1,
+        ttl: kani::any(),
+        rdata: &rd,
+        name_at: 4,
+        name_len: 0,
+    };
+    assert!(!add_rec(&mut w, &r, Hint::None, true, probe), "[C12] record that would eat the TSIG reservation is refused");
+    assert!(w.update_time_signed(TimeSigned::from(t2)).is_ok(), "[C12] update_time_signed accepted");
+    let limit = w.limit;
+    let n = w.finish();
+    assert!(n == 51 && n <= limit, "[C12] header + question + 32-octet TSIG record, within the limit");
+    let m = ref_decode_lim(&buf, n, [1, 0, 0, 1], 8);
+    assert!(m.wellformed, "[C12] finished TSIG message decodes");
+    assert!(m.counts[0] == 1 && m.counts[1] == 0 && m.counts[2] == 0 && m.counts[3] == 1, "[C12] counts");
+    assert!(m.n_tsig == 1 && m.tsig_placement_ok && m.n_opt == 0 && m.n_recs == 1, "[C12] exactly one TSIG, last in the additional section");
+    assert!(m.pointers_ok && !m.forbidden_pointer, "[C13] pointers valid");
+    let t = &m.recs[0];
+    assert!(t.rtype == T_TSIG && t.class == 255 && t.ttl == 0, "[C12] TSIG class ANY, TTL 0");
+    check_name(&buf, n, t.owner_at, &[1, b'k', 0], true);
+    // RFC 8945 section 4.2
+    let want = [
+        1, b'h', 0, t2[0], t2[1], t2[2], t2[3], t2[4], t2[5], (fudge >> 8) as u8, fudge as u8, 0, 0, (oid >> 8) as u8, oid as u8, (err >> 8) as u8, err as u8, 0, 0,
+    ];
+    assert!(t.rdlen == 19, "[C12] unsigned TSIG RDATA length");
+    let i: usize = kani::any();
+    kani::assume(i < 19);
+    assert!(buf[t.rd_at + i] == want[i], "[C12] TSIG RDATA: algorithm, updated time, fudge, empty MAC, original ID, error, no other data");
+    kani::cover!(n == 51, "TSIG record written");
+    core::mem::forget(q);
+}
+
+// --------------------------------------------------------------------------
+// templates
+// --------------------------------------------------------------------------
+
+// @harness props=C12,C13 tier=thorough mem=5 t=1800 kani="--no-assertion-reach-checks" fn="Writer::into_template,Writer::try_from_template,Writer::try_from_template_impl,Writer::add_answer_rr,Writer::finish"
+//   bound="buffer 64; set_edns ; question x. ; answer A (Hint::Qname) ; into_template ; try_from_template into buffers of 45 (refused), 46 (limit lowered) and 64 octets ; answer A (Hint::MostRecentOwner) ; finish; unwind 8"
+//   sym="3 case bits, payload, qtype, qclass, 2 ttl, 2x4 RDATA octets, probe<64" stubs="S8"
+#[kani::proof]
+#[kani::unwind(8)]
+#[kani::stub(Writer::write, write_model)]
+fn c12_template_roundtrip() {
+    let mut buf = [0u8; 64];
+    let probe: usize = kani::any();
+    kani::assume(probe < 64);
+    let mut w = Writer::new(&mut buf, 64).unwrap();
+    let payload: u16 = kani::any();
+    assert!(w.set_edns(payload).is_ok(), "[C12] OPT reservation fits");
+    let qn = [2, 0, 2, 1, any_case(b'a'), 0];
+    let (qt, qc): (u16, u16) = (kani::any(), kani::any());
+    let q = Question {
+        qname: name_view(&qn).to_owned(),
+        qtype: qt.into(),
+        qclass: qc.into(),
+    };
+    let mut e = new_expect(M_STD);
+    e.edns = Some((payload, 0));
+    assert!(add_q(&mut w, &q, probe), "[C12] question fits");
+    e.q = Some((&qn, qt, qc));
+    let on1 = [2, 0, 2, 1, any_case(b'a'), 0];
+    let on2 = [2, 0, 2, 1, any_case(b'a'), 0];
+    let rd: [[u8; 4]; 2] = kani::any();
+    let r1 = Rec {
+        sec: 1,
+        owner: &on1,
+        rtype: T_A,
+        class: 1,
+        ttl: kani::any(),
+        rdata: &rd[0],
+        name_at: 4,
+        name_len: 0,
+    };
+    let r2 = Rec { owner: &on2, ttl: kani::any(), rdata: &rd[1], ..r1 };
+    assert!(add_rec(&mut w, &r1, Hint::Qname, true, probe), "[C12] first record fits");
+    assert!(w.cursor == 35, "[C12] 16-octet record");
+    let s = snap(&w, probe);
+    let t = w.into_template();
+    let mut small = [0u8; 45];
+    assert!(matches!(Writer::try_from_template(&mut small, &t), Err(Error::Truncation)), "[C12] template needs room for the message and its reservations");
+    let mut exact = [0u8; 46];
+    let w3 = Writer::try_from_template(&mut exact, &t).unwrap();
+    assert!(w3.limit == 46 && w3.available == 35 && w3.cursor == 35, "[C12] limit lowered to the new buffer, reservation kept");
+    core::mem::forget(w3);
+    let mut buf2 = [0u8; 64];
+    let mut w2 = Writer::try_from_template(&mut buf2, &t).unwrap();
+    assert_unchanged(&w2, &Snap { probe_val: w2.octets[probe], ..s });
+    assert!(probe >= 35 || w2.octets[probe] == s.probe_val, "[C12] template carries the octets written so far");
+    assert!(add_rec(&mut w2, &r2, Hint::MostRecentOwner, true, probe), "[C12] second record fits in the new writer");
+    e.recs[0] = r1;
+    e.recs[1] = r2;
+    e.n = 2;
+    let (n, pointers) = done!(w2, buf2, &e);
+    kani::cover!(n == 35 + 16 + 11 && pointers == 2, "template message continued and finished");
+    core::mem::forget(q);
+    core::mem::forget(t);
+}
+
+// --------------------------------------------------------------------------
+// C13: the heuristic scan of write_compressed_unhinted_name
+// --------------------------------------------------------------------------
+
+/// Scan A: two prior names of the compressee's length, one of them holding
+/// a pointer itself.  Prefix (concrete letters, so its layout is fixed):
+///   12 QNAME a.b.            -> 01 a 01 b 00
+///   21 answer owner c.b.     -> 01 c c0 0e          (anchor: owner, 3 labels)
+///      SRV target A.b.  @41  -> 01 A 01 b 00        (anchor: RDATA name, 3 labels)
+/// Compressee (authority owner, Hint::None): X.Y. with X in {a,A,c,C},
+/// Y in {b,B}.
+fn scan_a<const M: u8>() -> Out {
+    let mut buf = [0u8; 64];
+    let probe: usize = kani::any();
+    kani::assume(probe < 64);
+    let mut w = Writer::new(&mut buf, 64).unwrap();
+    w.set_compression_mode(mode_of(M));
+    let qn = [3, 0, 2, 4, 1, b'a', 1, b'b', 0];
+    let (qt, qc): (u16, u16) = (kani::any(), kani::any());
+    let q = Question {
+        qname: name_view(&qn).to_owned(),
+        qtype: qt.into(),
+        qclass: qc.into(),
+    };
+    let mut e = new_expect(M);
+    assert!(add_q(&mut w, &q, probe), "[C12] question fits");
+    e.q = Some((&qn, qt, qc));
+    let on1 = [3, 0, 2, 4, 1, b'c', 1, b'b', 0];
+    let rd1 = [kani::any(), kani::any(), kani::any(), kani::any(), kani::any(), kani::any(), 1, b'A', 1, b'b', 0];
+    let r1 = Rec {
+        sec: 1,
+        owner: &on1,
+        rtype: T_SRV,
+        class: 1,
+        ttl: kani::any(),
+        rdata: &rd1,
+        name_at: 6,
+        name_len: 5,
+    };
+    assert!(add_rec(&mut w, &r1, Hint::None, true, probe), "[C12] SRV record fits");
+    assert!(w.cursor == 46, "[C12] owner c.b. shares the label b with the QNAME; SRV target in full");
+    e.recs[0] = r1;
+    e.n = 1;
+    let x = if kani::any() { b'a' } else { b'c' };
+    let on2 = [3, 0, 2, 4, 1, any_case(x), 1, any_case(b'b'), 0];
+    let rd2: [u8; 2] = kani::any();
+    let r2 = Rec {
+        sec: 2,
+        owner: &on2,
+        rtype: T_TXT,
+        class: 1,
+        ttl: kani::any(),
+        rdata: &rd2,
+        name_at: 2,
+        name_len: 0,
+    };
+    assert!(add_rec(&mut w, &r2, Hint::None, true, probe), "[C12] compressee record fits");
+    e.recs[1] = r2;
+    e.n = 2;
+    let (n, pointers) = done!(w, buf, &e);
+    core::mem::forget(q);
+    Out {
+        truncated: false,
+        pointers,
+        n,
+    }
+}
+
+// @harness props=C13,C12 tier=quick mem=4 t=1500 kani="--no-assertion-reach-checks" fn="Writer::write_compressed_unhinted_name,Writer::write_hinted_name,Writer::write_uncompressed_name,Writer::add_rr"
+//   bound="buffer 64, Standard mode; priors: owner c.b. (written 01 c + pointer) and SRV target A.b. (in full); compressee X.Y., X in {a,A,c,C}, Y in {b,B}, as authority owner with Hint::None; unwind 8"
+//   sym="letter choice + 2 case bits, qtype, qclass, 2 ttl, 8 RDATA octets, probe<64" stubs="S8"
+#[kani::proof]
+#[kani::unwind(8)]
+#[kani::stub(Writer::write, write_model)]
+fn c13_scan_equal_length_standard() {
+    let o = scan_a::<M_STD>();
+    // prefix has 1 pointer (owner c.b.); the compressee adds exactly one
+    kani::cover!(o.pointers == 2 && o.n == 46 + 2 + 12, "compressee replaced by one pointer");
+}
+
+// @harness props=C13,C12 tier=quick mem=4 t=1500 kani="--no-assertion-reach-checks" fn="Writer::write_compressed_unhinted_name,Writer::write_hinted_name,Writer::write_uncompressed_name,Writer::add_rr"
+//   bound="as c13_scan_equal_length_standard in CasePreserving mode; unwind 8"
+//   sym="letter choice + 2 case bits, qtype, qclass, 2 ttl, 8 RDATA octets, probe<64" stubs="S8"
+#[kani::proof]
+#[kani::unwind(8)]
+#[kani::stub(Writer::write, write_model)]
+fn c13_scan_equal_length_casepreserving() {
+    let o = scan_a::<M_CASE>();
+    kani::cover!(o.pointers == 2 && o.n == 46 + 4 + 12, "compressee keeps its first label and points to the shared suffix");
+    kani::cover!(o.pointers == 1 && o.n == 46 + 5 + 12, "compressee written in full (case differs)");
+}
+
+/// Scan B: priors of different lengths that converge on the same octets
+/// (the de-duplication branch), compressee shorter / equal / longer.
+/// Prefix (concrete letters):
+///   12 QNAME a.b.               -> 01 a 01 b 00
+///   21 answer owner b.          -> c0 0e            (anchor: owner = offset 14, 2 labels)
+///      NS a.b.            @33   -> 01 a c0 0e       (anchor: RDATA name, 3 labels)
+/// Compressee (second answer owner, Hint::None), by K:
+///   0: X.Y.   1: Y.   2: z.X.Y.      (X in {a,A}, Y in {b,B})
+fn scan_b<const M: u8, const K: u8>() -> Out {
+    let mut buf = [0u8; 64];
+    let probe: usize = kani::any();
+    kani::assume(probe < 64);
+    let mut w = Writer::new(&mut buf, 64).unwrap();
+    w.set_compression_mode(mode_of(M));
+    let qn = [3, 0, 2, 4, 1, b'a', 1, b'b', 0];
+    let (qt, qc): (u16, u16) = (kani::any(), kani::any());
+    let q = Question {
+        qname: name_view(&qn).to_owned(),
+        qtype: qt.into(),
+        qclass: qc.into(),
+    };
+    let mut e = new_expect(M);
+    assert!(add_q(&mut w, &q, probe), "[C12] question fits");
+    e.q = Some((&qn, qt, qc));
+    let on1 = [2, 0, 2, 1, b'b', 0];
+    let rd1 = [1, b'a', 1, b'b', 0];
+    let r1 = Rec {
+        sec: 1,
+        owner: &on1,
+        rtype: T_NS,
+        class: 1,
+        ttl: kani::any(),
+        rdata: &rd1,
+        name_at: 0,
+        name_len: 5,
+    };
+    assert!(add_rec(&mut w, &r1, Hint::None, true, probe), "[C12] NS record fits");
+    assert!(w.cursor == 37, "[C12] owner b. is a pointer into the QNAME; NS name a.b. keeps one label and a pointer");
+    e.recs[0] = r1;
+    e.n = 1;
+    let (xa, yb) = (any_case(b'a'), any_case(b'b'));
+    let on2_0 = [3, 0, 2, 4, 1, xa, 1, yb, 0];
+    let on2_1 = [2, 0, 2, 1, yb, 0];
+    let on2_2 = [4, 0, 2, 4, 6, 1, b'z', 1, xa, 1, yb, 0];
+    let rd2: [u8; 4] = kani::any();
+    let r2 = Rec {
+        sec: 1,
+        owner: if K == 0 {
+            &on2_0
+        } else if K == 1 {
+            &on2_1
+        } else {
+            &on2_2
+        },
+        rtype: T_A,
+        class: 1,
+        ttl: kani::any(),
+        rdata: &rd2,
+        name_at: 4,
+        name_len: 0,
+    };
+    assert!(add_rec(&mut w, &r2, Hint::None, true, probe), "[C12] compressee record fits");
+    e.recs[1] = r2;
+    e.n = 2;
+    let (n, pointers) = done!(w, buf, &e);
+    core::mem::forget(q);
+    Out {
+        truncated: false,
+        pointers,
+        n,
+    }
+}
+
+// @harness props=C13,C12 tier=quick mem=5 t=1800 kani="--no-assertion-reach-checks" fn="Writer::write_compressed_unhinted_name,Writer::write_unhinted_name,Writer::add_rr,Rdata::components"
+//   bound="buffer 64, Standard mode; priors: owner anchor at the QNAME's label b (2 labels) and NS name a.b. written 01 a + pointer (3 labels), converging on offset 14; compressee X.Y. (equal length); unwind 8"
+//   sym="2 case bits, qtype, qclass, 2 ttl, 4 RDATA octets, probe<64" stubs="S8"
+#[kani::proof]
+#[kani::unwind(8)]
+#[kani::stub(Writer::write, write_model)]
+fn c13_scan_converging_equal_standard() {
+    let o = scan_b::<M_STD, 0>();
+    kani::cover!(o.pointers == 3 && o.n == 37 + 2 + 14, "compressee is one pointer to the NS name, itself compressed");
+}
+
+// @harness props=C13,C12 tier=quick mem=5 t=1800 kani="--no-assertion-reach-checks" fn="Writer::write_compressed_unhinted_name,Writer::write_unhinted_name,Writer::add_rr,Rdata::components"
+//   bound="as c13_scan_converging_equal_standard in CasePreserving mode; unwind 8"
+//   sym="2 case bits, qtype, qclass, 2 ttl, 4 RDATA octets, probe<64" stubs="S8"
+#[kani::proof]
+#[kani::unwind(8)]
+#[kani::stub(Writer::write, write_model)]
+fn c13_scan_converging_equal_casepreserving() {
+    let o = scan_b::<M_CASE, 0>();
+    kani::cover!(o.pointers == 3 && o.n == 37 + 4 + 14, "first label differs in case: label + pointer to the shared b");
+    kani::cover!(o.pointers == 2 && o.n == 37 + 5 + 14, "last label differs in case: written in full");
+}
+
+// @harness props=C13,C12 tier=quick mem=5 t=1800 kani="--no-assertion-reach-checks" fn="Writer::write_compressed_unhinted_name,Writer::write_unhinted_name,Writer::add_rr,Rdata::components"
+//   bound="as c13_scan_converging_equal_standard with the 2-label compressee Y. (both priors are longer or equal: the skip loop follows the pointer inside the NS name); unwind 8"
+//   sym="1 case bit, qtype, qclass, 2 ttl, 4 RDATA octets, probe<64" stubs="S8"
+#[kani::proof]
+#[kani::unwind(8)]
+#[kani::stub(Writer::write, write_model)]
+fn c13_scan_converging_shorter_standard() {
+    let o = scan_b::<M_STD, 1>();
+    kani::cover!(o.pointers == 3 && o.n == 37 + 2 + 14, "compressee is one pointer to the shared label");
+}
+
+// @harness props=C13,C12 tier=thorough mem=5 t=1800 kani="--no-assertion-reach-checks" fn="Writer::write_compressed_unhinted_name,Writer::write_unhinted_name,Writer::add_rr,Rdata::components"
+//   bound="as c13_scan_converging_equal_standard with the 4-label compressee z.X.Y. (both priors shorter: start columns 1 and 2); unwind 8"
+//   sym="2 case bits, qtype, qclass, 2 ttl, 4 RDATA octets, probe<64" stubs="S8"
+#[kani::proof]
+#[kani::unwind(8)]
+#[kani::stub(Writer::write, write_model)]
+fn c13_scan_converging_longer_standard() {
+    let o = scan_b::<M_STD, 2>();
+    kani::cover!(o.pointers == 3 && o.n == 37 + 4 + 14, "compressee keeps z and points to the NS name");
 }
